@@ -148,6 +148,32 @@ class AddPrefixEntry(Contract):
                           z3.And(*[x.e == PREFIXED(s) for x, s in zip(yv, subs)]) if ok else z3.BoolVal(False))
 
 
+def _leaf_witness(fn_name):
+    def witness(self, case, model, ob):
+        """solver counter-model -> concrete filter key, replayed on the real function"""
+        if case.get("kind") != "leaf":
+            return None
+        k = model.eval(z3.String("key"), model_completion=True).as_string()
+        return {"input": {"key": k}, "script": f"""
+import sys, os
+sys.path.insert(0, os.environ.get('PYVC_REPO', '/repo'))
+from signac.filterparse import _add_prefix, _root_keys
+k = {k!r}
+has_ns = k in ('sp', 'doc') or k.startswith('sp.') or k.startswith('doc.')
+if {fn_name!r} == '_add_prefix':
+    got = dict(_add_prefix({{k: 1}}))
+    want = {{(k if has_ns else 'sp.' + k): 1}}
+else:
+    got = list(_root_keys({{k: 1}}))
+    want = [k.split('.', 1)[0]]
+assert got == want, (k, got, want)
+"""}
+    return witness
+
+
+AddPrefixEntry.witness = _leaf_witness("_add_prefix")
+
+
 class RootKeysEntry(Contract):
     """_root_keys per entry: the namespaces a (prefixed) filter refers to -- decides whether documents are indexed at all"""
     target = f"{FP}._root_keys"
@@ -250,3 +276,6 @@ class RootElem(Sym):
 
 
 CONTRACTS = [AddPrefixEntry(), RootKeysEntry()]
+
+
+RootKeysEntry.witness = _leaf_witness("_root_keys")
